@@ -24,6 +24,12 @@ var Flavours = map[string]*Flavour{
 		Policies: []model.Handling{model.HDefault, model.HAppend, model.HPrepend, model.HReplaceArr}, Nil: true, MoveBias: true},
 }
 
+// Histories is C07's slice of E1: long valid histories of every operation under every policy,
+// judged by the run-wide monitors alone (no panic, no fatal error, termination). State
+// disagreements with the model belong to other properties and are foreign observations here.
+var Histories = &Flavour{Prop: "C07", WCreate: 1, WMerge: 3, WSet: 4, WSetChild: 2, WRemove: 5, WChild: 2, WRead: 3, WIllegal: 1,
+	Policies: allPolicies, CfgSources: true, Nil: true, Mixed: true, MoveBias: true}
+
 // Run executes one world run for the given property flavour.
 func Run(r *sim.R, f *Flavour, maxSteps int) {
 	w := New(r, f)
